@@ -208,6 +208,29 @@ func (lex *Lexer) Reset() {
 	lex.buffer.Reset()
 }
 
+// flushAtEnd delivers the token that only the end of the input terminates.
+// The parser calls it at top level only (no bracket, string or comment
+// open), where the end of the input ends the text exactly as white space
+// would. Inside an unfinished construct the parser asks for more input
+// instead, and a partial token must stay in the buffer to be continued.
+func (lex *Lexer) flushAtEnd() (flushed bool, err error) {
+	before := len(lex.tokens)
+	switch lex.state {
+	case LexerNormal:
+		err = lex.dumpBuffer()
+	case LexerBuiltinOperator, LexerFirstFwdSlash, LexerFreshAssignOrColon:
+		// resolve the pending one-rune look-ahead as a blank in the text would
+		err = lex.LexNextRune(' ')
+	case LexerCommentLine:
+		lex.dumpComment()
+		lex.state = LexerNormal
+	default:
+		// inside a string, rune literal or block comment: nothing to deliver
+		return false, nil
+	}
+	return len(lex.tokens) > before, err
+}
+
 func (lex *Lexer) EmptyToken() Token {
 	return Token{}
 }
